@@ -249,7 +249,7 @@ def synthetic_record():
     ph, pl = H.limbs_of_array(P)
     return dict(id=899999, kind="hdc", exc="", warned=False, shape=[4, 5], calls=1, aq=H.l2(H.alpha_q("0.1")),
                 limq=H.l2(H.q18(limit)), Ph=ph, Pl=pl, Fh=list(ph), Fl=list(pl), R=R, lastq=H.l2(H.q18(last)),
-                fmq=H.l2(H.q18(last)))
+                fmq=H.l2(H.q18(last)), cmp=[(1 if v > last else (0 if v == last else -1)) for v in P])
 
 
 def self_test(ctx):
@@ -279,6 +279,9 @@ def self_test(ctx):
     var("Densest", R=r_swap)
     var("Threshold", lastq=H.l2(base["lastq"][0] * H.B9 + base["lastq"][1] + 1))
     var("FmIsDensity", fmq=H.l2(2 * (base["fmq"][0] * H.B9 + base["fmq"][1])))
+    # fm one ulp above the least dense enclosed cell: that cell compares as "below fm"
+    var("FmIsLeastEnclosedDensity", cmp=[(-1 if v == 0 else v) for v in base["cmp"]])
+    var("FmIsLeastEnclosedDensity", cmp=[(1 if (v == -1 and c == outs[0]) else v) for c, v in enumerate(base["cmp"])])
     r_extra = list(base["R"])
     r_extra[outs[len(outs) // 2]] = 1   # a cell far less dense than fm inside the region
     var("Sandwich", R=r_extra)
@@ -318,7 +321,9 @@ def run(ctx):
         "(exact ties cum = limit occur), also with the limit moved by +-2^-30 / +-2^-21 (just above / below an "
         "attainable sum).  Near-limit contours: for 4 (quick) / 16 (thorough) small grids the total T of the grid is "
         "measured and alpha := 1 - T*(1 +- eps), eps = 1e-12, 1e-9, 1e-7, 1e-5, 1e-3 (warning required on one side, "
-        "forbidden on the other).  Hidden state: 8 (quick) / 40 (thorough) pairs of look-alike models - same structure, "
+        "forbidden on the other).  8 / 60 contours with short-decimal cell sizes (0.1, 0.3, 0.07 ..: fm judged exactly "
+        "against cell_averaged_joint_pdf), the DNVGL sea state on 0.1/0.1, an i.i.d. model with exact ties at the "
+        "threshold, all-default contours whose default upper limit is negative (RuntimeWarning expected).  Hidden state: 8 (quick) / 40 (thorough) pairs of look-alike models - same structure, "
         "families, fixed parameters, dependence functions as parameter-less closures with different constants - run "
         "A, B, A on one grid, and the cheap ordinary contours a second time in reverse order.  distinct = distinct (model structure+parameters, alpha, limits, deltas); non-trivial = no "
         "exception, not on the warn path, at least 4 cells enclosed and at least one cell excluded")
@@ -335,6 +340,10 @@ def run(ctx):
         "(outcome 'error' of HDC.tla, nothing claimed)",
         "Content/Tight/WarnIff carry a slack of 200*N*1e-18 for the float cumsum (derivation in Trace_C02.tla)",
         "default limits (Monte-Carlo marginal quantile) are exercised for alpha >= 1e-4 only (sample size ~ 1/alpha)",
+        "exact density ties at the threshold (i.i.d. variables on identical grids) are split by flat index in the "
+        "code; for the region {f >= fm} 'at most 1-alpha' and 'misses by less than the densest excluded cell' cannot "
+        "both hold there, so Content/Tight are judged on the returned region and the fm clauses as a sandwich "
+        "({f > fm} inside, region inside {f >= fm}) - no clause depends on how ties are split",
     ]
     # M
     for cfg in ctx.pick(("MC_HDC_sel_quick.cfg", "MC_HDC_sel_quick2.cfg"),
@@ -355,6 +364,11 @@ def run(ctx):
     # V
     sel_recs = judge_selection(ctx, vc, sel_cases, "selection domain")
     kept = judge(ctx, vc, cases, "contours")
+    # decimal cell sizes (exact fm), tied i.i.d. models, negative default limits (RuntimeWarning expected)
+    extra = H.decimal_delta_cases(vc, np.random.default_rng(ctx.seed * 53 + 9), cfgs, ctx.pick(8, 60))
+    extra += H.negative_default_limit_cases()[: ctx.pick(1, 2)]
+    kept_x = judge(ctx, vc, extra, "decimal cell sizes / ties / negative default limits", base_id=150000)
+    ctx.notes["decimal_delta_and_default_limit_contours"] = len(kept_x)
     # hidden state between contours: look-alike models back to back on one grid (A, B, A), and the
     # cheap ordinary contours a second time in reverse order
     twins = H.twin_cases(vc, np.random.default_rng(ctx.seed * 31 + 5), cfgs, ctx.pick(8, 40))
